@@ -390,3 +390,58 @@ class LazyDict(dict):
                 return d
             return _Method(cp)
         raise Unsupported(f'dict.{name} on a symbolic dict')
+
+
+# ----------------------------------------------------------------------------- abstract sequences of abstract objects
+class AbsObj:
+    """an object known only through the attributes given here (values, or callables evaluated on access)"""
+
+    def __init__(self, label, attrs, truth=True):
+        self.label, self.attrs, self._truth = label, attrs, truth
+
+    def getattr_(self, it, name, node):
+        if name not in self.attrs:
+            raise Unsupported(f'attribute {name} of abstract {self.label}')
+        v = self.attrs[name]
+        return v(it) if callable(v) and not hasattr(v, 'call_') else v
+
+    def truth(self, it):
+        return self._truth
+
+    def __repr__(self):
+        return f'<AbsObj {self.label}>'
+
+
+class AbsSeq:
+    """a sequence of symbolic length whose i-th element is make_elem(i) (i may be a z3 term)"""
+
+    def __init__(self, run, label, make_elem, n=None):
+        self.run, self.label, self.make_elem = run, label, make_elem
+        if n is None:
+            n = run.fresh_int(label + '_n')
+            run.assume(n >= 0)
+        self.n = n
+
+    def seq_len(self):
+        return self.n
+
+    def len_(self, it, node):
+        return self.n
+
+    def truth(self, it):
+        return simp(zint(self.n) != 0)
+
+    def elem(self, it, i):
+        return self.make_elem(simp(zint(i)))
+
+    def iterate(self, it, node):
+        n = simp(zint(self.n))
+        if isinstance(n, int):
+            return [self.make_elem(j) for j in range(n)]
+        raise Unsupported(f'iteration over abstract sequence {self.label} needs a loop specification')
+
+    def getitem(self, it, idx, node):
+        i, n = zint(idx), zint(self.n)
+        if not it.run.branch(z3.And(i >= -n, i < n), 'seq.index_ok'):
+            it.raise_(IndexError, 'list index out of range', node=node)
+        return self.make_elem(simp(z3.If(i < 0, i + n, i)))
